@@ -3123,12 +3123,28 @@ class Interp:
             return [(mk_func('SQRT', args[0]), st)]
         if name in ('abs', 'math.fabs', 'mpmath.fabs') and num():
             return [(mk_func('ABS', args[0]), st)]
+        if name == 'math.copysign' and len(args) == 2 and num(0) and num(1):
+            # |x| with the sign of y (y = 0 counts as positive: integer zero has no sign bit)
+            res = []
+            for t, s2 in self.branch(norm_cmp('<', args[1], Sym.const(0)), st):
+                res.append((-mk_func('ABS', args[0]) if t else mk_func('ABS', args[0]), s2))
+            return res
         if name == 'round' and len(args) == 1 and num():
             return [(mk_func('ROUND', args[0]), st)]
         if name == 'round' and len(args) == 2 and num(0) and num(1) and args[1].is_const() \
                 and args[1].const_value().denominator == 1 and 0 <= args[1].const_value() <= 12:
             scale = 10 ** int(args[1].const_value())
             return [(mk_func('ROUND', args[0] * scale) / scale, st)]
+        if name in ('max', 'min') and len(args) == 2 and not kwargs and \
+                getattr(self.hooks, 'minmax_by_selection', False) and \
+                all(isinstance(a, Sym) for a in args):
+            # which *operand* comes back matters (object identity): min(a, b) is b if b < a
+            # else a, max(a, b) is b if b > a else a - ties return the first argument
+            a_, b_ = args
+            res = []
+            for t, s2 in self.branch(norm_cmp('<' if name == 'min' else '>', b_, a_), st):
+                res.append((b_ if t else a_, s2))
+            return res
         if name in ('max', 'min') and len(args) >= 2 and all(isinstance(a, Sym) for a in args):
             return [(mk_func(name.upper(), *args), st)]
         if name in ('max', 'min') and len(args) == 1 and set(kwargs) <= {'default'} and \
@@ -3703,6 +3719,14 @@ def fold_cond(c):
         if c.op == 'is':
             if isinstance(a, Const) and isinstance(b, Const):
                 return a.v is b.v
+            if isinstance(a, Sym) and isinstance(b, Sym):
+                # identity of numbers: the same variable is the same object; two different
+                # variables are taken to hold distinct objects (equal values included - a
+                # caller's parsed or computed float is not the bound object)
+                aa, ab = a.as_atom(), b.as_atom()
+                if aa is not None and ab is not None and aa[0] == 'v' and ab[0] == 'v':
+                    return aa == ab
+                return None
             if (isinstance(a, Const) and isinstance(b, (Sym, Str, Tup, DictV))) or \
                     (isinstance(b, Const) and isinstance(a, (Sym, Str, Tup, DictV))):
                 return False
@@ -3719,6 +3743,12 @@ def fold_cond(c):
                 return (a.v == b.v) == (c.op == '==')
             if isinstance(a, Str) and isinstance(b, Str) and a.is_lit() and b.is_lit():
                 return (a.text() == b.text()) == (c.op == '==')
+            # str(number), stripped / case-folded, against a literal that cannot be the text of
+            # a number ("clear"): never equal
+            for x, y in ((a, b), (b, a)):
+                if isinstance(y, Str) and y.is_lit() and is_number_text(x) and any(
+                        ch not in '0123456789+-.eEinfINFaA_ ' for ch in y.text()):
+                    return c.op == '!='
             if isinstance(a, Tup) and isinstance(b, Tup) and a.kind == b.kind:
                 if len(a.items) != len(b.items):
                     return c.op == '!='
@@ -3771,6 +3801,20 @@ def fold_cond(c):
             return False
         return None
     return None
+
+
+def is_number_text(v):
+    """v is str(<numeric term>) possibly passed through strip()/lower()/upper()."""
+    while isinstance(v, Opaque) and v.label in ('m:strip', 'm:lower', 'm:upper', 'm:lstrip',
+                                                'm:rstrip', 'm:casefold') and len(v.args) == 1:
+        v = v.args[0]
+    if isinstance(v, Opaque) and v.label in ('str', 'call:builtins.str') and len(v.args) == 1:
+        v = v.args[0]
+        return isinstance(v, Sym)
+    if isinstance(v, Str) and len(v.parts) == 1 and isinstance(v.parts[0], Slot) and \
+            not getattr(v.parts[0], 'spec', None):
+        return isinstance(v.parts[0].value, Sym)
+    return False
 
 
 def implied_by_path(c, path):
